@@ -21,6 +21,13 @@ Semantics of one point, after `cancel`:
 * `send/recv ch false` - plain channel statement: completes only when the channel has room / an element;
 * `errSend`    - plain (blocking) `errCh <- err` followed by `return`; the non-blocking report
                  `select { case errCh <- err: default: }` is `send errCh true`.
+* `lock m free`- `Lock`/`RLock` of mutex `m`; `free` = no critical section of `m` anywhere contains an operation that
+                 can park its holder (regenerated fact): the holder releases by itself, the lock is acquired without
+                 anybody's help.  With `free = false` the acquisition may wait for a parked holder: never enabled.
+* `join ok`    - a wait for other goroutines: `errgroup.Wait` whose joined functions are all walked in place as part of
+                 this worker (`ok = true`: as good as their points, which are in the table), or a `WaitGroup.Wait` /
+                 `Cond.Wait` on something the table knows nothing about (`ok = false`: never enabled).
+`for range ch` and `select {}` are plain receives (`recv ch false`).
 -/
 namespace Shutdown
 
@@ -35,6 +42,8 @@ inductive BP
   | send (ch : Chan) (guarded : Bool)
   | recv (ch : Chan) (guarded : Bool)
   | errSend
+  | lock (m : Nat) (free : Bool)
+  | join (ok : Bool)
   deriving DecidableEq, Repr, Inhabited
 
 /-- a point that cannot park a worker for ever once the context is cancelled (`errSend` is judged separately,
@@ -45,6 +54,8 @@ def BP.guarded : BP → Bool
   | .send _ g => g
   | .recv _ g => g
   | .errSend => true
+  | .lock _ f => f
+  | .join ok => ok
 
 structure Cfg where
   cap : Chan → Nat
@@ -98,6 +109,8 @@ def opEnabled (cfg : Cfg) (lvl : Chan → Nat) : BP → Bool
   | .send ch g => g || decide (lvl ch < cfg.cap ch)
   | .recv ch g => g || decide (0 < lvl ch)
   | .errSend => decide (lvl .errCh < cfg.cap .errCh)
+  | .lock _ f => f
+  | .join ok => ok
 
 def opEffect (cfg : Cfg) (lvl : Chan → Nat) : BP → (Chan → Nat)
   | .send ch _ => if lvl ch < cfg.cap ch then inc lvl ch else lvl
@@ -253,7 +266,10 @@ def bpOf (kind chan : Nat) (flag : Bool) : BP :=
   | 1 => .sleep flag
   | 2 => .send (chanOf chan) flag
   | 3 => .recv (chanOf chan) flag
-  | _ => .errSend
+  | 4 => .errSend
+  | 5 => .lock chan flag
+  | 6 => .join flag
+  | _ => .join false   -- a kind this model does not know: unguarded
 
 abbrev RawPoint := Nat × Nat × Nat × Bool
 
